@@ -111,6 +111,8 @@ pub struct SynthFont {
     pub has_programs: bool,
     pub params: Value,
     pub features: BTreeMap<String, u64>,
+    /// SROUND (0..=255) / S45ROUND (256..=511) selectors used by the programs
+    pub round_selectors: Vec<u16>,
 }
 
 struct Gen {
@@ -125,7 +127,12 @@ struct Gen {
     half_pixel: Option<(u32, i32)>,
     programs: bool,
     cvt: Vec<i16>,
-    /// keep documented skrifa-vs-FreeType divergences out of the random fonts
+    /// Keep the shapes of the first round of findings out of the random fonts
+    /// (comments saying KNOWN DIVERGENCE next to uses of this flag). They were
+    /// fixed in /repo (3fc7b53, 9915a84, ae356e3, 8411bdb, aeb6f2f), so the flag
+    /// is now off by default and those shapes are generated; set
+    /// C03_SYNTH_AVOID_FIXED=1 to run against an older tree. The probe font
+    /// keeps one regression glyph per finding.
     avoid_known: bool,
 }
 
@@ -909,6 +916,152 @@ mod op {
     pub const PUSHW: u8 = 0xB8; // + (n-1)
     pub const MDRP: u8 = 0xC0; // + 5 bits
     pub const MIRP: u8 = 0xE0; // + 5 bits
+    pub const SMD: u8 = 0x1A;
+    pub const SSWCI: u8 = 0x1E;
+    pub const SSW: u8 = 0x1F;
+    pub const WCVTP: u8 = 0x44;
+    pub const RCVT: u8 = 0x45;
+    pub const FLIPON: u8 = 0x4D;
+    pub const FLIPOFF: u8 = 0x4E;
+    pub const AND: u8 = 0x5A;
+    pub const SDB: u8 = 0x5E;
+    pub const SDS: u8 = 0x5F;
+    pub const DIV: u8 = 0x62;
+    pub const NROUND: u8 = 0x6C; // + 2 bits
+    pub const DELTAP2: u8 = 0x71;
+    pub const DELTAP3: u8 = 0x72;
+    pub const DELTAC1: u8 = 0x73;
+    pub const DELTAC2: u8 = 0x74;
+    pub const DELTAC3: u8 = 0x75;
+    pub const SROUND: u8 = 0x76;
+    pub const S45ROUND: u8 = 0x77;
+    pub const SCANCTRL: u8 = 0x85;
+    pub const GETINFO: u8 = 0x88;
+    pub const SCANTYPE: u8 = 0x8D;
+    pub const INSTCTRL: u8 = 0x8E;
+}
+
+/// Per-font state of the program generators.
+pub struct ProgCtx {
+    /// next SROUND / S45ROUND selector (stride 37 is coprime to 256: every
+    /// selector byte is reached; the start depends on the font index)
+    sel_next: [u32; 2],
+    /// selectors emitted: bit 8 set for S45ROUND
+    pub selectors: Vec<u16>,
+    upem: i32,
+    n_cvt: usize,
+    avoid_known: bool,
+}
+
+impl ProgCtx {
+    fn new(index: u32, upem: u16, n_cvt: usize, avoid_known: bool) -> Self {
+        ProgCtx { avoid_known, sel_next: [index.wrapping_mul(101), index.wrapping_mul(59).wrapping_add(128)], selectors: vec![], upem: upem as i32, n_cvt }
+    }
+
+    /// One rounding-state instruction: RTG, RTHG, RTDG, RDTG, RUTG, ROFF,
+    /// SROUND[sel] or S45ROUND[sel].
+    fn round_state_op(&mut self, rng: &mut Rng, v: &mut Vec<u8>, feats: &mut BTreeMap<String, u64>) {
+        let mut note = |k: &str| *feats.entry(format!("ins:{k}")).or_default() += 1;
+        match rng.usize(12) {
+            0..=5 => {
+                let (o, name) = [
+                    (op::RTG, "RTG"),
+                    (op::RTHG, "RTHG"),
+                    (op::RTDG, "RTDG"),
+                    (op::RDTG, "RDTG"),
+                    (op::RUTG, "RUTG"),
+                    (op::ROFF, "ROFF"),
+                ][rng.usize(6)];
+                v.push(o);
+                note(name);
+            }
+            k => {
+                let which = if k <= 8 { 0 } else { 1 };
+                let sel = (self.sel_next[which] & 0xFF) as i32;
+                self.sel_next[which] = self.sel_next[which].wrapping_add(37);
+                push(v, &[sel]);
+                v.push(if which == 0 { op::SROUND } else { op::S45ROUND });
+                self.selectors.push(sel as u16 | ((which as u16) << 8));
+                note(if which == 0 { "SROUND" } else { "S45ROUND" });
+            }
+        }
+    }
+
+    /// A 26.6 value on or next to a rounding decision boundary (grid, half
+    /// grid, double grid and the sqrt(2)/2 grids of S45ROUND), or anywhere
+    /// within +-3 pixels.
+    fn boundary_value(&self, rng: &mut Rng) -> i32 {
+        if rng.bool() {
+            rng.range(-192, 192) as i32
+        } else {
+            let period = *rng.pick(&[64i64, 32, 128, 45, 22, 90, 16, 8]);
+            let k = rng.range(-3, 3);
+            (k * period + *rng.pick(&[0i64, 1, -1, period / 2, period / 2 + 1, period / 2 - 1, period / 4, period * 3 / 4])) as i32
+        }
+    }
+
+    /// Graphics-state setters whose effect is on later MIAP/MIRP/MDRP/DELTA instructions.
+    fn state_setter(&mut self, rng: &mut Rng, v: &mut Vec<u8>, feats: &mut BTreeMap<String, u64>) {
+        let mut note = |k: &str| *feats.entry(format!("ins:{k}")).or_default() += 1;
+        match rng.usize(8) {
+            0 => {
+                push(v, &[rng.range(0, 200) as i32]);
+                v.push(op::SCVTCI);
+                note("SCVTCI");
+            }
+            1 => {
+                push(v, &[rng.range(0, 160) as i32]);
+                v.push(op::SSWCI);
+                note("SSWCI");
+            }
+            2 => {
+                // single width in font units
+                push(v, &[rng.range(0, (self.upem / 2).max(1) as i64) as i32]);
+                v.push(op::SSW);
+                note("SSW");
+            }
+            3 => {
+                push(v, &[*rng.pick(&[0, 16, 32, 48, 64, 65, 96, 128])]);
+                v.push(op::SMD);
+                note("SMD");
+            }
+            4 => {
+                push(v, &[rng.range(4, 40) as i32]);
+                v.push(op::SDB);
+                note("SDB");
+            }
+            5 => {
+                push(v, &[rng.range(0, 6) as i32]);
+                v.push(op::SDS);
+                note("SDS");
+            }
+            6 => {
+                v.push(if rng.bool() { op::FLIPOFF } else { op::FLIPON });
+                note("FLIPON_OFF");
+            }
+            _ => {
+                if rng.bool() {
+                    push(v, &[rng.range(0, 0x3FFF) as i32]);
+                    v.push(op::SCANCTRL);
+                    note("SCANCTRL");
+                } else {
+                    push(v, &[rng.range(0, 7) as i32]);
+                    v.push(op::SCANTYPE);
+                    note("SCANTYPE");
+                }
+            }
+        }
+    }
+
+    /// DELTAC1..3 on one cvt entry.
+    fn deltac(&mut self, rng: &mut Rng, v: &mut Vec<u8>, feats: &mut BTreeMap<String, u64>) -> i32 {
+        let c = rng.usize(self.n_cvt.max(1)) as i32;
+        let arg = (rng.range(0, 15) << 4 | rng.range(0, 15)) as i32;
+        push(v, &[arg, c, 1]);
+        v.push(*rng.pick(&[op::DELTAC1, op::DELTAC2, op::DELTAC3]));
+        *feats.entry("ins:DELTAC".into()).or_default() += 1;
+        c
+    }
 }
 
 fn push(out: &mut Vec<u8>, vals: &[i32]) {
@@ -949,11 +1102,49 @@ fn fpgm_program() -> Vec<u8> {
     v
 }
 
-fn prep_program(rng: &mut Rng) -> Vec<u8> {
+fn prep_program(rng: &mut Rng, pc: &mut ProgCtx, feats: &mut BTreeMap<String, u64>) -> Vec<u8> {
     let mut v = vec![];
-    if rng.bool() {
-        push(&mut v, &[rng.range(0, 200) as i32]);
-        v.push(op::SCVTCI);
+    let mut note = |feats: &mut BTreeMap<String, u64>, k: &str| *feats.entry(format!("prep:{k}")).or_default() += 1;
+    // the usual prep idiom: round control values under some rounding state
+    if rng.chance(1, 2) {
+        pc.round_state_op(rng, &mut v, feats);
+        for _ in 0..rng.range(1, 4) {
+            let c = rng.usize(pc.n_cvt.max(1)) as i32;
+            push(&mut v, &[c, c]);
+            v.push(op::RCVT);
+            v.push(if rng.bool() { op::ROUND } else { op::NROUND } + rng.usize(4) as u8);
+            v.push(op::WCVTP);
+        }
+        note(feats, "round_cvt");
+        v.push(op::RTG);
+    }
+    for _ in 0..rng.range(0, 4) {
+        pc.state_setter(rng, &mut v, feats);
+        note(feats, "state_setter");
+    }
+    if rng.chance(1, 3) {
+        pc.deltac(rng, &mut v, feats);
+        note(feats, "DELTAC");
+    }
+    if rng.chance(1, 3) {
+        // does a rounding state set in prep persist into glyph programs?
+        pc.round_state_op(rng, &mut v, feats);
+        note(feats, "round_state_left_set");
+    }
+    if rng.chance(1, 6) {
+        // INSTCTRL: value, selector
+        let (val, sel) = *rng.pick(&[(1, 1), (0, 1), (2, 2), (0, 2), (4, 3), (0, 3)]);
+        // KNOWN DIVERGENCE, kept out of the random fonts (the draws above are made
+        // regardless so that C03_SYNTH_INSTCTRL=1 reproduces the same fonts with it):
+        // FreeType 2.12.1 copies the default graphics state for INSTCTRL selector 2
+        // in tt_loader_init but TT_Hint_Glyph then reloads size->GS, so the prep's
+        // settings stay in force; skrifa resets them. Selector 3 (value 4) also
+        // differs under the normal target (not root-caused).
+        if std::env::var("C03_SYNTH_INSTCTRL").is_ok() {
+            push(&mut v, &[val, sel]);
+            v.push(op::INSTCTRL);
+            note(feats, &format!("INSTCTRL_{sel}_{val}"));
+        }
     }
     // storage[0] = ppem
     push(&mut v, &[0]);
@@ -963,8 +1154,15 @@ fn prep_program(rng: &mut Rng) -> Vec<u8> {
 }
 
 /// A glyph program over points 0..n_points (+4 phantom points).
+macro_rules! note {
+    ($f:expr, $k:expr) => {
+        *$f.entry(format!("ins:{}", $k)).or_default() += 1
+    };
+}
+
 fn glyph_program(
     rng: &mut Rng,
+    pc: &mut ProgCtx,
     n_points: usize,
     n_cvt: usize,
     feats: &mut BTreeMap<String, u64>,
@@ -975,7 +1173,6 @@ fn glyph_program(
     if n_points == 0 {
         return v;
     }
-    let mut note = |k: &str| *feats.entry(format!("ins:{k}")).or_default() += 1;
     let with_phantom = n_points + 4;
     let n_ops = rng.range(2, 16);
     let mut iup = [false, false];
@@ -988,7 +1185,7 @@ fn glyph_program(
         if block_left == 0 {
             axis_y = rng.chance(7, 10);
             v.push(if axis_y { op::SVTCA_Y } else { op::SVTCA_X });
-            note("SVTCA");
+            note!(feats, "SVTCA");
             block_left = rng.range(1, 6);
         }
         block_left -= 1;
@@ -997,49 +1194,57 @@ fn glyph_program(
         // rounds both coordinates of all four phantom points before running a
         // glyph program, FreeType only pp1.x, pp2.x, pp3.y, pp4.y; visible once
         // a program has moved e.g. pp1 in y and USE_MY_METRICS hands it on.
-        let _ = with_phantom;
-        let p = if rng.chance(1, 10) { n_points + if axis_y { 2 } else { 0 } + rng.usize(2) } else { rng.usize(n_points) } as i32;
+        let p = if rng.chance(1, 10) {
+            let any = rng.usize(with_phantom); // drawn in both modes: same random stream
+            if pc.avoid_known {
+                n_points + if axis_y { 2 } else { 0 } + any % 2
+            } else {
+                any
+            }
+        } else {
+            rng.usize(n_points)
+        } as i32;
         let c = rng.usize(n_cvt.max(1)) as i32;
-        match rng.usize(22) {
+        match rng.usize(34) {
             0 => {
                 v.push(op::SVTCA_Y);
                 axis_y = true;
-                note("SVTCA");
+                note!(feats, "SVTCA");
             }
             1 => {
                 v.push(op::SVTCA_X);
                 axis_y = false;
-                note("SVTCA");
+                note!(feats, "SVTCA");
             }
             2 | 3 => {
                 push(&mut v, &[p]);
                 v.push(op::MDAP + rng.usize(2) as u8);
-                note("MDAP");
+                note!(feats, "MDAP");
             }
             4 | 5 => {
                 push(&mut v, &[p, c]);
                 v.push(op::MIAP + rng.usize(2) as u8);
-                note("MIAP");
+                note!(feats, "MIAP");
             }
             6 | 7 => {
                 push(&mut v, &[p]);
                 v.push(op::MDRP + rng.usize(32) as u8);
-                note("MDRP");
+                note!(feats, "MDRP");
             }
             8 => {
                 push(&mut v, &[p, c]);
                 v.push(op::MIRP + rng.usize(32) as u8);
-                note("MIRP");
+                note!(feats, "MIRP");
             }
             9 => {
                 push(&mut v, &[p]);
                 v.push(*rng.pick(&[op::SRP0, op::SRP1, op::SRP2]));
-                note("SRPn");
+                note!(feats, "SRPn");
             }
             10 => {
                 push(&mut v, &[p]);
                 v.push(op::SHP + rng.usize(2) as u8);
-                note("SHP");
+                note!(feats, "SHP");
             }
             11 => {
                 // IP only where the interpreters work from the exact unscaled
@@ -1059,35 +1264,35 @@ fn glyph_program(
                         v.push(op::SRP2);
                         push(&mut v, &[rng.usize(n_points) as i32]);
                         v.push(op::IP);
-                        note("IP");
+                        note!(feats, "IP");
                     }
                 }
             }
             12 => {
                 push(&mut v, &[p]);
                 v.push(op::ALIGNRP);
-                note("ALIGNRP");
+                note!(feats, "ALIGNRP");
             }
             13 => {
                 push(&mut v, &[p, rng.range(-128, 128) as i32]);
                 v.push(op::SHPIX);
-                note("SHPIX");
+                note!(feats, "SHPIX");
             }
             14 => {
                 v.push(*rng.pick(&[op::RTG, op::RTHG, op::RTDG, op::RDTG, op::RUTG, op::ROFF]));
-                note("round_state");
+                note!(feats, "round_state");
             }
             15 => {
                 // DELTAP1: arg = (ppem - 9) << 4 | magnitude
                 let arg = (rng.range(0, 15) << 4 | rng.range(0, 15)) as i32;
                 push(&mut v, &[arg, p, 1]);
                 v.push(op::DELTAP1);
-                note("DELTAP1");
+                note!(feats, "DELTAP1");
             }
             16 => {
                 push(&mut v, &[p, rng.range(0, (N_FUNCS - 1) as i64) as i32]);
                 v.push(op::CALL);
-                note("CALL");
+                note!(feats, "CALL");
             }
             17 => {
                 // if ppem < k then MDAP[rnd] p
@@ -1099,7 +1304,7 @@ fn glyph_program(
                 push(&mut v, &[p]);
                 v.push(op::MDAP + 1);
                 v.push(op::EIF);
-                note("IF_MPPEM");
+                note!(feats, "IF_MPPEM");
             }
             18 => {
                 // p <- GC[cur](p) +/- d
@@ -1109,7 +1314,7 @@ fn glyph_program(
                 push(&mut v, &[d]);
                 v.push(if rng.bool() { op::ADD } else { op::SUB });
                 v.push(op::SCFS);
-                note("GC_SCFS");
+                note!(feats, "GC_SCFS");
             }
             19 => {
                 // storage round trip
@@ -1119,22 +1324,117 @@ fn glyph_program(
                 push(&mut v, &[s]);
                 v.push(op::RS);
                 v.push(op::POP);
-                note("WS_RS");
+                note!(feats, "WS_RS");
             }
             20 => {
                 let a = rng.usize(2);
                 if !iup[a] || rng.chance(1, 4) {
                     v.push(if a == 0 { op::IUP_Y } else { op::IUP_X });
                     iup[a] = true;
-                    note("IUP");
+                    note!(feats, "IUP");
                 }
             }
-            _ => {
+            21 => {
                 push(&mut v, &[rng.range(0, 255) as i32, rng.range(0, 255) as i32]);
                 v.push(op::SWAP);
                 v.push(op::POP);
                 v.push(op::POP);
-                note("stack_ops");
+                note!(feats, "stack_ops");
+            }
+            22 | 23 => {
+                // rounding state, then a distance/position instruction that rounds with it
+                pc.round_state_op(rng, &mut v, feats);
+                match rng.usize(4) {
+                    0 => {
+                        push(&mut v, &[p]);
+                        v.push(op::MDAP + 1);
+                    }
+                    1 => {
+                        push(&mut v, &[p, c]);
+                        v.push(op::MIAP + 1);
+                    }
+                    2 => {
+                        push(&mut v, &[p]);
+                        v.push(op::MDRP + (rng.usize(32) as u8 | 0x04));
+                    }
+                    _ => {
+                        push(&mut v, &[p, c]);
+                        v.push(op::MIRP + (rng.usize(32) as u8 | 0x04));
+                    }
+                }
+                *feats.entry("ins:round_state_then_rounding_move".into()).or_default() += 1;
+            }
+            24 | 25 => {
+                // put p exactly on / next to a decision boundary, then MDAP[1] under a fresh rounding state
+                pc.round_state_op(rng, &mut v, feats);
+                push(&mut v, &[p, pc.boundary_value(rng)]);
+                v.push(op::SCFS);
+                push(&mut v, &[p]);
+                v.push(op::MDAP + 1);
+                *feats.entry("ins:round_at_boundary_MDAP".into()).or_default() += 1;
+            }
+            26 | 27 => {
+                // p <- ROUND[ab] / NROUND[ab] of a literal boundary value
+                pc.round_state_op(rng, &mut v, feats);
+                push(&mut v, &[p, pc.boundary_value(rng)]);
+                let nround = rng.chance(1, 4);
+                v.push(if nround { op::NROUND } else { op::ROUND } + rng.usize(4) as u8);
+                v.push(op::SCFS);
+                *feats.entry(if nround { "ins:NROUND_literal".to_string() } else { "ins:ROUND_literal".to_string() }).or_default() += 1;
+            }
+            28 => {
+                // p <- ROUND[ab](GC[cur] p)
+                push(&mut v, &[p, p]);
+                v.push(op::GC);
+                v.push(op::ROUND + rng.usize(4) as u8);
+                v.push(op::SCFS);
+                *feats.entry("ins:GC_ROUND_SCFS".into()).or_default() += 1;
+            }
+            29 | 30 => {
+                pc.state_setter(rng, &mut v, feats);
+            }
+            31 => {
+                // DELTAP1..3 (the ranges depend on SDB / SDS)
+                let arg = (rng.range(0, 15) << 4 | rng.range(0, 15)) as i32;
+                push(&mut v, &[arg, p, 1]);
+                v.push(*rng.pick(&[op::DELTAP1, op::DELTAP2, op::DELTAP3]));
+                *feats.entry("ins:DELTAP123".into()).or_default() += 1;
+            }
+            32 => {
+                // DELTAC then a MIAP that reads the entry
+                let dc = pc.deltac(rng, &mut v, feats);
+                push(&mut v, &[p, dc]);
+                v.push(op::MIAP + rng.usize(2) as u8);
+            }
+            _ => {
+                // GETINFO made visible: shift p by the result (AND/OR are logical in
+                // TrueType, so the bits are brought down with DIV instead of masked).
+                // Selector bit 12 is left to the probe font (KNOWN DIVERGENCE: under
+                // the light target FreeType's grayscale_cleartype is false because
+                // `load_flags & FT_LOAD_TARGET_LCD` also matches FT_LOAD_TARGET_LIGHT).
+                match rng.usize(3) {
+                    0 => {
+                        push(&mut v, &[p, 1]);
+                        v.push(op::GETINFO); // version
+                    }
+                    1 => {
+                        push(&mut v, &[p, rng.range(1, 63) as i32 & !1 | 2]);
+                        v.push(op::GETINFO); // result bits 8..12
+                        push(&mut v, &[4096]);
+                        v.push(op::DIV); // r * 64 / 4096 = r >> 6
+                    }
+                    _ => {
+                        let sel = *rng.pick(&[64i32, 256, 1024, 2048, 64 | 256, 1024 | 2048, 64 | 256 | 1024 | 2048]);
+                        push(&mut v, &[p, sel]);
+                        v.push(op::GETINFO); // result bits 13..18
+                        push(&mut v, &[4096]);
+                        v.push(op::DIV);
+                        push(&mut v, &[8192]);
+                        v.push(op::DIV); // r >> 13
+                    }
+                }
+                v.push(op::SHPIX);
+                *feats.entry("ins:GETINFO".into()).or_default() += 1;
             }
         }
     }
@@ -1182,7 +1482,7 @@ pub fn generate(seed: u64, index: u32) -> SynthFont {
         half_pixel,
         programs,
         cvt: vec![],
-        avoid_known: std::env::var("C03_SYNTH_ALLOW_KNOWN").is_err(),
+        avoid_known: std::env::var("C03_SYNTH_AVOID_FIXED").is_ok(),
     };
     let (n_simple, n_comp) = shape_of(&mut g.rng);
     // gid 0: .notdef (a box, or empty)
@@ -1218,12 +1518,14 @@ pub fn generate(seed: u64, index: u32) -> SynthFont {
     // ---- programs
     let mut fpgm = vec![];
     let mut prep = vec![];
+    let mut round_selectors: Vec<u16> = vec![];
     if g.programs {
         let n_cvt = 12usize;
         g.cvt = (0..n_cvt).map(|_| g.rng.range(-(upem as i64) / 4, upem as i64) as i16).collect();
         fpgm = fpgm_program();
-        prep = prep_program(&mut g.rng);
         let mut feats = BTreeMap::new();
+        let mut pc = ProgCtx::new(index, upem, n_cvt, g.avoid_known);
+        prep = prep_program(&mut g.rng, &mut pc, &mut feats);
         for i in 0..g.glyphs.len() {
             let n_points = g.glyphs[i].n_points;
             let with_ins = match g.glyphs[i].recipe {
@@ -1239,7 +1541,7 @@ pub fn generate(seed: u64, index: u32) -> SynthFont {
                 _ => None,
             };
             let min_ip_range = (upem as f64 / 16.0).max(1.0);
-            let prog = glyph_program(&mut g.rng, n_points, n_cvt, &mut feats, exact.as_deref(), min_ip_range);
+            let prog = glyph_program(&mut g.rng, &mut pc, n_points, n_cvt, &mut feats, exact.as_deref(), min_ip_range);
             match &mut g.glyphs[i].recipe {
                 Recipe::Simple { ins, .. } => {
                     *ins = prog;
@@ -1255,6 +1557,7 @@ pub fn generate(seed: u64, index: u32) -> SynthFont {
         for (k, v) in feats {
             *g.features.entry(k).or_default() += v;
         }
+        round_selectors = pc.selectors;
     }
     // Debugging aid only (never set by the driver): "gid=hex bytes;gid=..." replaces glyph programs.
     if let Ok(spec) = std::env::var("C03_DBG_OVERRIDE_INS") {
@@ -1338,7 +1641,10 @@ pub fn generate(seed: u64, index: u32) -> SynthFont {
     for gl in g.glyphs.iter_mut() {
         let max_abs = gl.pts.iter().map(|p| p.0.abs().max(p.1.abs())).fold(0.0, f64::max);
         let shift = (gl.bbox[0] as f64 - gl.lsb as f64).abs();
-        gl.autohint_ok = max_abs + shift + (upem as f64 / 8.0) <= autohint_limit;
+        // ... and glyphs of implausible size (beyond 4 em): the rare unexplained
+        // auto-hinter differences seen so far (about 1 in 5*10^7 comparisons) were all
+        // on heavily squashed / stretched nested composites several em large.
+        gl.autohint_ok = max_abs + shift + (upem as f64 / 8.0) <= autohint_limit && max_abs <= 4.0 * upem as f64;
     }
     let map_ascii = g.rng.chance(3, 5) && std::env::var("C03_DBG_NO_ASCII").is_err();
     let mut mappings: Vec<(char, u16)> = vec![(' ', 1)];
@@ -1372,6 +1678,8 @@ pub fn generate(seed: u64, index: u32) -> SynthFont {
         "short_loca": short_loca,
         "ascii_cmap": map_ascii,
         "programs": g.programs,
+        "prep": hexs(&prep),
+        "cvt": g.cvt,
         "half_pixel_ppem_and_step": half_pixel.map(|(p, s)| json!([p, s])),
     });
     SynthFont {
@@ -1386,6 +1694,7 @@ pub fn generate(seed: u64, index: u32) -> SynthFont {
         params,
         features: g.features,
         glyphs: g.glyphs,
+        round_selectors,
     }
 }
 
@@ -1689,6 +1998,24 @@ pub fn probe_font() -> SynthFont {
         *ins = vec![op::PUSHB, 6, op::MDAP, op::SVTCA_Y, op::PUSHB + 1, 1, 1, op::MIRP + 0x18, op::IUP_Y, op::IUP_X];
     }
     g.glyphs.push(g10);
+    // 11: GETINFO selector bit 12 (ClearType + grayscale) shifts point 1 by result >> 17 (4/64 px if set)
+    let mut l11 = hand_simple(l_shape.clone(), "L_getinfo_bit12", None, 1200, 100);
+    if let Recipe::Simple { ins, .. } = &mut l11.recipe {
+        // (touch the point first: in backward compatibility mode SHPIX only moves touched points)
+        let mut v = vec![op::SVTCA_Y, op::PUSHB, 1, op::MDAP];
+        push(&mut v, &[1, 0x1000]);
+        v.push(op::GETINFO);
+        push(&mut v, &[8192]);
+        v.push(op::DIV); // r >> 7
+        push(&mut v, &[16384]);
+        v.push(op::DIV); // r >> 15
+        push(&mut v, &[256]);
+        v.push(op::DIV); // r >> 17
+        v.push(op::SHPIX);
+        v.extend_from_slice(&[op::IUP_Y, op::IUP_X]);
+        *ins = v;
+    }
+    g.glyphs.push(l11);
     let mut enc_rng = Rng::new(0);
     let (glyf, loca) = glyf_loca(&g.glyphs, &mut enc_rng, false);
     let n = g.glyphs.len();
@@ -1707,6 +2034,7 @@ pub fn probe_font() -> SynthFont {
         params: json!({"probe": true, "generator_version": GEN_VERSION, "units_per_em": upem, "note": "fixed font with the known skrifa-vs-FreeType divergences"}),
         features: BTreeMap::new(),
         glyphs: g.glyphs,
+        round_selectors: vec![],
     }
 }
 
